@@ -1,4 +1,5 @@
 import SwcVerif.Props.C01
+import SwcVerif.Props.C01Gen
 #print axioms C01.writer_consts_pinned
 #print axioms C01.digits_parse
 #print axioms C01.fmt4_parse
